@@ -88,8 +88,26 @@ def one(req: dict, variant: str) -> dict:
         # mimic the simulated layout loosely: <top>/w/<proj>; /w/abs cannot exist for real,
         # keys never depend on it (an absolute import of it fails identically in both worlds
         # only if absent, so templates using it are unkeyed by construction: extras => hash)
-        root = os.path.join(top, "w", "proj")
+        # B: a long absolute path (> 150 characters) with spaces and non-ASCII characters
+        mid = ("deeply nested checkout of the project " + "x" * 40 + " caf\u00e9", "build-tree-" + "y" * 50) if variant == "B" else ()
+        root = os.path.join(top, *mid, "w", "proj")
         lay_out(root, req)
+        if variant == "B":
+            # B: a crowded source directory (unrelated files next to the sources)
+            for name, text in (("README.txt", "notes\n"), ("unrelated_bp.c.orig", "/* old */\n"), ("zz_backup.bitproto.bak", "proto junk\n"), (".hidden", ""), ("Makefile", "all:\n")):
+                pth = os.path.join(root, name)
+                if not os.path.lexists(pth):
+                    with open(pth, "w") as f:
+                        f.write(text)
+            os.makedirs(os.path.join(root, "empty_dir"), exist_ok=True)
+        if variant == "A":
+            # A: sources last modified long ago (B: a moment ago)
+            for d, _, fs_ in os.walk(root):
+                for f in fs_:
+                    try:
+                        os.utime(os.path.join(d, f), (1000000000, 1000000000), follow_symlinks=False)
+                    except (OSError, NotImplementedError):
+                        pass
         main = os.path.join(root, req["main"])
         if variant == "A":
             os.chdir(top)
